@@ -269,6 +269,13 @@ func (c *channelInstance) verifyAndDecrypt(m *MessageChunk, r []byte) ([]byte, e
 		return m.Data, nil
 	}
 
+	// An instance that has no algorithm yet cannot verify anything, e.g. the
+	// opening instance of a channel configured for a secured mode that
+	// receives an OpenSecureChannel chunk under policy None.
+	if c.algo == nil {
+		return nil, ua.StatusBadSecurityChecksFailed
+	}
+
 	headerLength := 12
 
 	if isAsymmetric {
